@@ -131,6 +131,41 @@ func vcHoldsSynchronized(items []vcItem, path string) bool {
 	return false
 }
 
+// vcShow renders the kinds of a tree over the names of this harness.
+func vcShow(e *Entry) string {
+	if e == nil {
+		return "-"
+	}
+	var s string
+	switch e.Kind {
+	case EntryKind_File:
+		return "file"
+	case EntryKind_SymbolicLink:
+		return "link"
+	case EntryKind_Untracked:
+		return "untracked"
+	case EntryKind_Problematic:
+		return "problematic"
+	case EntryKind_Directory:
+		s = "dir{"
+	case EntryKind_PhantomDirectory:
+		s = "phantom{"
+	default:
+		return "?"
+	}
+	first := true
+	for _, name := range []string{"o", "e", "f", "s", "n", "k"} {
+		if c, ok := e.Contents[name]; ok {
+			if !first {
+				s += ","
+			}
+			first = false
+			s += name + ":" + vcShow(c)
+		}
+	}
+	return s + "}"
+}
+
 func vcFile(content byte) *vfNode {
 	w := vfw
 	w.nextID++
@@ -202,15 +237,27 @@ func VerifC15Scan() {
 		return
 	}
 	vCover("scanned")
-	vNote("snapshot=" + vtShow(snap.Content))
+	vNote("snapshot=" + vcShow(snap.Content))
 
 	var items []vcItem
 	vcClassify(root, "", false, true, g, &items)
 
-	// ---- what the scan itself reports ----
-	vAssert(snap.Content != nil && snap.Content.Kind == EntryKind_Directory, "the root is a tracked directory")
+	// ---- after reification ----
+	// ancestor: nothing below the root / e was a directory / e and e/s were;
+	// other endpoint: an empty root / the same tree (scanned alike)
+	for av := 0; av <= vParam("ancestors", 2); av++ {
+		for bv := 0; bv <= vParam("betas", 1); bv++ {
+			vcCheckReified(snap.Content, items, av, bv)
+		}
+	}
+	vcCheckScanned(snap.Content, items)
+}
+
+// vcCheckScanned: what the scan itself reports.
+func vcCheckScanned(content *Entry, items []vcItem) {
+	vAssert(content != nil && content.Kind == EntryKind_Directory, "the root is a tracked directory")
 	for _, it := range items {
-		got, _ := vtAt(snap.Content, it.path)
+		got, _ := vtAt(content, it.path)
 		if !it.reached {
 			vAssert(got == nil, "nothing is recorded below an excluded directory that is not walked")
 			continue
@@ -251,15 +298,6 @@ func VerifC15Scan() {
 			vAssert(got.Kind == EntryKind_SymbolicLink, "an included link is tracked (re-inclusion beneath an excluded directory)")
 		}
 	}
-
-	// ---- after reification ----
-	// ancestor: nothing below the root / e was a directory / e and e/s were;
-	// other endpoint: an empty root / the same tree (scanned alike)
-	for av := 0; av <= vParam("ancestors", 2); av++ {
-		for bv := 0; bv <= vParam("betas", 1); bv++ {
-			vcCheckReified(snap.Content, items, av, bv)
-		}
-	}
 }
 
 func vcCheckReified(alpha *Entry, items []vcItem, av, bv int) {
@@ -279,10 +317,10 @@ func vcCheckReified(alpha *Entry, items []vcItem, av, bv int) {
 	} else {
 		beta = vtClone(alpha)
 	}
-	vNote("ancestor=" + vtShow(anc) + " beta=" + vtShow(beta))
+	vNote("ancestor=" + vcShow(anc) + " beta=" + vcShow(beta))
 
 	ra, rb, _, _ := ReifyPhantomDirectories(anc, alpha, beta)
-	vNote("reified alpha=" + vtShow(ra))
+	vNote("reified alpha=" + vcShow(ra))
 	for _, res := range []*Entry{ra, rb} {
 		vAssert(vtC15CountKind(res, EntryKind_PhantomDirectory) == 0, "no phantom directory remains after reification")
 	}
